@@ -51,6 +51,8 @@ func init() {
 		Run:         runC08,
 		Configs:     []string{"linux/amd64"},
 		Mutants: []Mutant{
+			{Name: "index-covers-methods-but-not-fields-of-indirect-packages", File: "internal/xtools-internal/typesinternal/typeindex/typeindex.go", Rule: "R8.8", KeyPart: "package-of-every-used-object-is-indexed",
+				Old: "\t\t\t\tif !typesinternal.IsPackageLevel(obj) {\n", New: "\t\t\t\tif _, isFunc := obj.(*types.Func); isFunc && !typesinternal.IsPackageLevel(obj) {\n"},
 			{Name: "prefilter-requires-use-of-symbol", File: "analysis/code/visit.go", Rule: "R8.7", KeyPart: "filters-on-use",
 				Old: "\t\t\t\treturn index.Object(node.Path, node.Ident) != nil\n", New: "\t\t\t\treturn index.Used(index.Object(node.Path, node.Ident))\n"},
 			{Name: "entry-table-wrong-kind", File: "pattern/parser.go", Rule: "R8.1", KeyPart: "SliceExpr",
@@ -698,6 +700,117 @@ func runC08(c *Ctx) {
 		}
 		c.Note("R8.6: %d pattern constants read, %d required symbol names checked", n, nSyms)
 	})
+	// R8.8: symbols are looked up starting from the index's package table
+	// (Index.Package → Object → Selection). A method or field can be used in a
+	// package that never imports the package declaring it (srv.ErrorLog.Printf
+	// with only net/http imported), so the table must cover the package of
+	// every object that is used, not only the imports: on every path on which a
+	// use is recorded, the object's package was added to the table, or the
+	// object is package-level (then its package is imported by construction).
+	c.Rule("R8.8", func() {
+		c.Floor("R8.8", 2)
+		tiPkg := Module + "/internal/xtools-internal/typesinternal/typeindex"
+		newFn := c.Func("internal/xtools-internal/typesinternal/typeindex", "New")
+		fns := append([]*ssa.Function{newFn}, newFn.AnonFuncs...)
+		// the closure(s) that insert into Index.packages
+		adders := map[*ssa.Function]bool{}
+		for _, f := range fns {
+			Instrs(f, false, func(in ssa.Instruction) {
+				if mu, ok := in.(*ssa.MapUpdate); ok && Derives(mu.Map, IsFieldOf("typeindex.Index", "packages")) {
+					adders[f] = true
+				}
+			})
+		}
+		if len(adders) == 0 {
+			c.Undecided("typeindex.New no longer fills Index.packages")
+		}
+		isAdd := func(in ssa.Instruction, of ssa.Value) bool {
+			call, ok := in.(*ssa.Call)
+			if !ok {
+				return false
+			}
+			target := false
+			for _, cl := range closureTargets(&call.Call) {
+				if adders[cl] {
+					target = true
+				}
+			}
+			if callee := call.Call.StaticCallee(); callee != nil && adders[callee] {
+				target = true
+			}
+			if !target {
+				// a direct insertion
+				return false
+			}
+			for _, a := range call.Call.Args {
+				if Derives(a, func(v ssa.Value) bool {
+					pc, ok := v.(*ssa.Call)
+					return ok && pc.Call.IsInvoke() && pc.Call.Method.Name() == "Pkg" && Derives(pc.Call.Value, func(x ssa.Value) bool { return x == of })
+				}) {
+					return true
+				}
+			}
+			return false
+		}
+		n := 0
+		for _, f := range fns {
+			Instrs(f, false, func(in ssa.Instruction) {
+				lk, ok := in.(*ssa.Lookup)
+				if !ok || !DerivesLocal(lk.X, IsFieldOf("types.Info", "Uses")) {
+					return
+				}
+				n++
+				var obj ssa.Value = lk
+				if lk.CommaOk {
+					if refs := lk.Referrers(); refs != nil {
+						for _, r := range *refs {
+							if ex, ok := r.(*ssa.Extract); ok && ex.Index == 0 {
+								obj = ex
+							}
+						}
+					}
+				}
+				// where the use is recorded
+				isRecord := func(x ssa.Instruction) bool {
+					if mu, ok := x.(*ssa.MapUpdate); ok && Derives(mu.Map, IsFieldOf("typeindex.Index", "uses")) {
+						return true
+					}
+					if l2, ok := x.(*ssa.Lookup); ok && x != ssa.Instruction(lk) && Derives(l2.X, IsFieldOf("typeindex.Index", "uses")) {
+						return true
+					}
+					return false
+				}
+				pkgLevel := CallTrueEdges(f, func(call *ssa.Call) bool {
+					return strings.HasSuffix(CalleeName(&call.Call), "typesinternal.IsPackageLevel") && len(call.Call.Args) == 1 && Derives(call.Call.Args[0], func(v ssa.Value) bool { return v == obj })
+				})
+				t, path := PathAvoiding(f, lk, isRecord, func(x ssa.Instruction) bool { return isAdd(x, obj) }, pkgLevel)
+				c.Check(FuncKey(f)+"::package-of-every-used-object-is-indexed", lk.Pos(), t == nil, "a use is recorded for an object whose package was not added to the index's package table (and that is not known to be package-level): Index.Object/Selection start from that table, so a method or field of a package that is not imported directly is invisible to CouldMatchAny and to the call-site enumeration although the pattern matches; path: %s", PathString(f, path))
+			})
+		}
+		if n == 0 {
+			c.Undecided("typeindex.New no longer consults Info.Uses")
+		}
+		// imports are indexed too
+		imp := false
+		for _, f := range fns {
+			for _, ci := range Calls(f, false) {
+				call, ok := ci.(*ssa.Call)
+				if !ok {
+					continue
+				}
+				for _, cl := range closureTargets(&call.Call) {
+					if adders[cl] {
+						for _, a := range call.Call.Args {
+							if Derives(a, IsCallResult("go/types.PkgName.Imported")) {
+								imp = true
+							}
+						}
+					}
+				}
+			}
+		}
+		c.Check(tiPkg+".New::imports-indexed", newFn.Pos(), imp, "every import declaration (including blank and dot imports) adds the imported package to the table")
+	})
 }
 
 func patName(p *packages.Package, call *ast.CallExpr) string {
@@ -1004,3 +1117,24 @@ func malformedSymbol(name string) string {
 }
 
 var _ = token.NoPos
+
+
+// closureTargets returns the function literals a called function value may
+// denote (through local variables and captured variables of enclosing functions).
+func closureTargets(cc *ssa.CallCommon) []*ssa.Function {
+	var out []*ssa.Function
+	if cc.IsInvoke() {
+		return nil
+	}
+	for x := range BackSlice(cc.Value, SliceOpts{}) {
+		if mc, ok := x.(*ssa.MakeClosure); ok {
+			if f, _ := mc.Fn.(*ssa.Function); f != nil {
+				out = append(out, f)
+			}
+		}
+		if f, ok := x.(*ssa.Function); ok {
+			out = append(out, f)
+		}
+	}
+	return out
+}
